@@ -272,7 +272,7 @@ Section Dec.
               match inflate payload with
               | None => DErr
               | Some raw =>
-                  dlet (vs, _) <- rec JReg ([], raw);
+                  dlet (vs, _) <- rec JReg (h, raw);   (* the packed message is decoded with the outer hints *)
                   match vs with [v] => one (VGzip v) (h, r') | _ => DPanic end
               end
           end
